@@ -123,6 +123,29 @@ func genLogCase(t *rapid.T, o datagen.QueryOpts, formats []string) LogCase {
 			break
 		}
 	}
+	// A number comparison over a stream label meets the special floats in that label: NaN fails
+	// every ordered comparison (and ==), the infinities lie beyond every literal.
+	if len(c.Recs) > 0 {
+		isLabel := map[string]bool{}
+		for _, l := range s.Labels {
+			isLabel[l.Name] = true
+		}
+		var walk func(p *gen.Pred)
+		walk = func(p *gen.Pred) {
+			if p == nil {
+				return
+			}
+			if p.Kind == "num" && isLabel[p.Label] && rapid.Bool().Draw(t, "special-float-label") {
+				i := rapid.IntRange(0, len(c.Recs)-1).Draw(t, "special-float-rec")
+				c.Recs[i].Labels[p.Label] = rapid.SampledFrom([]string{"NaN", "nan", "+Inf", "-Inf", "NaN"}).Draw(t, "special-float")
+			}
+			walk(p.L)
+			walk(p.R)
+		}
+		for _, st := range c.Query.Stages {
+			walk(st.Pred)
+		}
+	}
 	c.Text = gen.PrintLog(&c.Query, datagen.RapidLayout{T: t, RawOK: true})
 	c.Caps = mockstore.Caps{Label: rapid.IntRange(0, 15).Draw(t, "caps-label"), Line: rapid.IntRange(0, 15).Draw(t, "caps-line")}
 	return c
